@@ -120,3 +120,69 @@ def swap_compare(text):
 
 
 TRANSFORMS.update({'negate-if': negate_if, 'swap-compare': swap_compare})
+
+
+def _terminates(stmts):
+    return bool(stmts) and isinstance(stmts[-1], (ast.Return, ast.Raise, ast.Continue, ast.Break))
+
+
+class _ElseAfterReturn(ast.NodeTransformer):
+    """if c: ...; return/raise   <rest>   ->   if c: ...; return/raise  else: <rest>    (in function bodies and nested blocks)"""
+
+    def _block(self, stmts):
+        out = []
+        i = 0
+        while i < len(stmts):
+            s = stmts[i]
+            if isinstance(s, ast.If) and not s.orelse and _terminates(s.body) and i + 1 < len(stmts) and not isinstance(s.body[-1], (ast.Continue, ast.Break)):
+                rest = self._block(stmts[i + 1:])
+                out.append(ast.copy_location(ast.If(test=s.test, body=s.body, orelse=rest), s))
+                return out
+            out.append(s)
+            i += 1
+        return out
+
+    def visit_FunctionDef(self, node):
+        self.generic_visit(node)
+        node.body = self._block(node.body)
+        return node
+
+
+def else_after_return(text):
+    return ast.unparse(ast.fix_missing_locations(_ElseAfterReturn().visit(ast.parse(text))))
+
+
+class _ReturnViaTemp(ast.NodeTransformer):
+    def __init__(self):
+        self.k = 0
+
+    def visit_FunctionDef(self, node):
+        self.generic_visit(node)
+        node.body = self._block(node.body)
+        return node
+
+    def _block(self, stmts):
+        out = []
+        for s in stmts:
+            for fld in ('body', 'orelse', 'finalbody'):
+                if hasattr(s, fld) and isinstance(getattr(s, fld), list) and not isinstance(s, (ast.FunctionDef, ast.ClassDef)):
+                    setattr(s, fld, self._block(getattr(s, fld)))
+            if isinstance(s, ast.Try):
+                for h in s.handlers:
+                    h.body = self._block(h.body)
+            if isinstance(s, ast.Return) and isinstance(s.value, ast.Call):
+                self.k += 1
+                nm = 'result_tmp_%d' % self.k
+                out.append(ast.copy_location(ast.Assign(targets=[ast.Name(id=nm, ctx=ast.Store())], value=s.value), s))
+                out.append(ast.copy_location(ast.Return(value=ast.Name(id=nm, ctx=ast.Load())), s))
+            else:
+                out.append(s)
+        return out
+
+
+def return_via_temp(text):
+    """return f(x)  ->  tmp = f(x); return tmp"""
+    return ast.unparse(ast.fix_missing_locations(_ReturnViaTemp().visit(ast.parse(text))))
+
+
+TRANSFORMS.update({'else-after-return': else_after_return, 'return-via-temp': return_via_temp})
